@@ -15,6 +15,7 @@ Section expr_ind'.
   Hypothesis HQ : forall a b, P a -> P b -> P (EQuot a b).
   Hypothesis HW : forall a b, P a -> P b -> P (EPow a b).
   Hypothesis HC : forall f l, Forall P l -> P (ECall f l).
+  Hypothesis HK : forall f l kw, Forall P l -> Forall (fun kv => P (snd kv)) kw -> P (ECallKw f l kw).
   Hypothesis HN : forall a, P a -> P (ENot a).
   Fixpoint expr_ind' (e : expr) : P e :=
     let go := fix go (l : list expr) : Forall P l :=
@@ -22,6 +23,14 @@ Section expr_ind'.
                 | [] => Forall_nil P
                 | x :: l' => Forall_cons x (expr_ind' x) (go l')
                 end in
+    let gok := fix gok (kw : list (string * expr)) : Forall (fun kv => P (snd kv)) kw :=
+                 match kw with
+                 | [] => Forall_nil _
+                 | kv :: kw' =>
+                     Forall_cons kv (match kv as kv0 return P (snd kv0) with
+                                     | (_, v) => expr_ind' v
+                                     end) (gok kw')
+                 end in
     match e with
     | EInt z => HI z
     | EVar x => HV x
@@ -30,11 +39,103 @@ Section expr_ind'.
     | EQuot a b => HQ a b (expr_ind' a) (expr_ind' b)
     | EPow a b => HW a b (expr_ind' a) (expr_ind' b)
     | ECall f l => HC f l (go l)
+    | ECallKw f l kw => HK f l kw (go l) (gok kw)
     | ENot a => HN a (expr_ind' a)
     end.
 End expr_ind'.
 
-(* ---- structural equality test ---- *)
+(* small list facts used for the keyword arguments (list of (name, value) pairs) *)
+Lemma Forall_snd {A} (P : expr -> Prop) (kw : list (A * expr)) :
+  Forall (fun kv => P (snd kv)) kw <-> Forall P (map snd kw).
+Proof. now rewrite Forall_map. Qed.
+
+Lemma flat_map_snd {A B} (g : expr -> list B) (kw : list (A * expr)) :
+  flat_map (fun kv => g (snd kv)) kw = flat_map g (map snd kw).
+Proof. induction kw as [|kv kw IH]; cbn; [reflexivity | now rewrite IH]. Qed.
+
+Lemma forallb_snd {A} (g : expr -> bool) (kw : list (A * expr)) :
+  forallb (fun kv => g (snd kv)) kw = forallb g (map snd kw).
+Proof. induction kw as [|kv kw IH]; cbn; [reflexivity | now rewrite IH]. Qed.
+
+(* ---- identity of terms (expr_same): the comparison used by the correspondence check ---- *)
+Fixpoint list_same (l m : list expr) : bool :=
+  match l, m with
+  | [], [] => true
+  | x :: l', y :: m' => expr_same x y && list_same l' m'
+  | _, _ => false
+  end.
+
+Fixpoint kw_same (l m : list (string * expr)) : bool :=
+  match l, m with
+  | [], [] => true
+  | (k1, x) :: l', (k2, y) :: m' => String.eqb k1 k2 && expr_same x y && kw_same l' m'
+  | _, _ => false
+  end.
+
+Lemma expr_same_sum l m : expr_same (ESum l) (ESum m) = list_same l m.
+Proof. reflexivity. Qed.
+Lemma expr_same_prod l m : expr_same (EProd l) (EProd m) = list_same l m.
+Proof. reflexivity. Qed.
+Lemma expr_same_call f g l m : expr_same (ECall f l) (ECall g m) = String.eqb f g && list_same l m.
+Proof. reflexivity. Qed.
+Lemma expr_same_callkw f g l m kw kw2 :
+  expr_same (ECallKw f l kw) (ECallKw g m kw2) = String.eqb f g && list_same l m && kw_same kw kw2.
+Proof. reflexivity. Qed.
+
+Lemma list_same_eq l : Forall (fun a => forall b, expr_same a b = true <-> a = b) l ->
+  forall m, list_same l m = true <-> l = m.
+Proof.
+  induction 1 as [|x l Hx _ IH]; intros [|y m]; cbn; split; intro H; try discriminate; auto.
+  - apply andb_true_iff in H. destruct H as [H1 H2]. apply Hx in H1. apply IH in H2. now subst.
+  - injection H as -> ->. apply andb_true_iff. split; [now apply Hx | now apply IH].
+Qed.
+
+Lemma kw_same_eq kw : Forall (fun kv => forall b, expr_same (snd kv) b = true <-> snd kv = b) kw ->
+  forall kw2, kw_same kw kw2 = true <-> kw = kw2.
+Proof.
+  induction 1 as [|[k x] kw Hx _ IH]; intros [|[k2 y] kw2]; cbn [kw_same]; split; intro H;
+    try discriminate; auto.
+  - apply andb_true_iff in H. destruct H as [H H3]. apply andb_true_iff in H. destruct H as [H1 H2].
+    apply String.eqb_eq in H1. apply Hx in H2. apply IH in H3. cbn in H2. now subst.
+  - injection H as -> -> ->. rewrite String.eqb_refl. cbn [andb]. apply andb_true_iff.
+    split; [now apply Hx | now apply IH].
+Qed.
+
+Lemma expr_same_eq a : forall b, expr_same a b = true <-> a = b.
+Proof.
+  induction a as [z|x|l IH|l IH|a1 a2 IH1 IH2|a1 a2 IH1 IH2|f l IH|f l kw IH IHk|a IH] using expr_ind';
+    intros b.
+  - destruct b; cbn; split; intro H; try discriminate. apply Z.eqb_eq in H. now subst.
+    injection H as ->. apply Z.eqb_refl.
+  - destruct b; cbn; split; intro H; try discriminate. apply String.eqb_eq in H. now subst.
+    injection H as ->. apply String.eqb_refl.
+  - destruct b as [| |m| | | | | |]; try (cbn; split; intro H; discriminate).
+    rewrite expr_same_sum, (list_same_eq l IH). split; intro H; [now subst | now injection H].
+  - destruct b as [| | |m| | | | |]; try (cbn; split; intro H; discriminate).
+    rewrite expr_same_prod, (list_same_eq l IH). split; intro H; [now subst | now injection H].
+  - destruct b; cbn; split; intro H; try discriminate.
+    + apply andb_true_iff in H. destruct H as [H1 H2]. apply IH1 in H1. apply IH2 in H2. now subst.
+    + injection H as -> ->. apply andb_true_iff. split; [now apply IH1 | now apply IH2].
+  - destruct b; cbn; split; intro H; try discriminate.
+    + apply andb_true_iff in H. destruct H as [H1 H2]. apply IH1 in H1. apply IH2 in H2. now subst.
+    + injection H as -> ->. apply andb_true_iff. split; [now apply IH1 | now apply IH2].
+  - destruct b as [| | | | | |g m| |]; try (cbn; split; intro H; discriminate).
+    rewrite expr_same_call, andb_true_iff, String.eqb_eq, (list_same_eq l IH).
+    split; intro H; [destruct H; now subst | injection H; auto].
+  - destruct b as [| | | | | | |g m kw2|]; try (cbn; split; intro H; discriminate).
+    rewrite expr_same_callkw, !andb_true_iff, String.eqb_eq, (list_same_eq l IH), (kw_same_eq kw IHk).
+    split; intro H; [destruct H as [[H1 H2] H3]; now subst | injection H; auto].
+  - destruct b; cbn; split; intro H; try discriminate.
+    + apply IH in H. now subst.
+    + injection H as ->. now apply IH.
+Qed.
+
+Lemma expr_same_refl a : expr_same a a = true.
+Proof. now apply expr_same_eq. Qed.
+
+(* ---- pymbolic equality (expr_eqb, the key equality of the is_constant dictionary):
+   reflexive, and equal keys have the same classification.  It is identity of terms except that
+   the keyword arguments of a call are compared as a mapping. ---- *)
 Fixpoint list_eqb (l m : list expr) : bool :=
   match l, m with
   | [], [] => true
@@ -42,48 +143,101 @@ Fixpoint list_eqb (l m : list expr) : bool :=
   | _, _ => false
   end.
 
+Definition kw_match (kv1 kv2 : string * expr) : bool :=
+  String.eqb (fst kv1) (fst kv2) && expr_eqb (snd kv1) (snd kv2).
+Definition kw_sub (kw kw2 : list (string * expr)) : bool :=
+  forallb (fun kv1 => existsb (fun kv2 => kw_match kv1 kv2) kw2) kw.
+Definition kw_sup (kw kw2 : list (string * expr)) : bool :=
+  forallb (fun kv2 => existsb (fun kv1 => kw_match kv1 kv2) kw) kw2.
+
 Lemma expr_eqb_sum l m : expr_eqb (ESum l) (ESum m) = list_eqb l m.
 Proof. reflexivity. Qed.
 Lemma expr_eqb_prod l m : expr_eqb (EProd l) (EProd m) = list_eqb l m.
 Proof. reflexivity. Qed.
 Lemma expr_eqb_call f g l m : expr_eqb (ECall f l) (ECall g m) = String.eqb f g && list_eqb l m.
 Proof. reflexivity. Qed.
+Lemma expr_eqb_callkw f g l m kw kw2 :
+  expr_eqb (ECallKw f l kw) (ECallKw g m kw2) =
+  String.eqb f g && list_eqb l m && Nat.eqb (List.length kw) (List.length kw2) &&
+  kw_sub kw kw2 && kw_sup kw kw2.
+Proof. reflexivity. Qed.
 
-Lemma list_eqb_eq l : Forall (fun a => forall b, expr_eqb a b = true <-> a = b) l ->
-  forall m, list_eqb l m = true <-> l = m.
-Proof.
-  induction 1 as [|x l Hx _ IH]; intros [|y m]; cbn; split; intro H; try discriminate; auto.
-  - apply andb_true_iff in H. destruct H as [H1 H2]. apply Hx in H1. apply IH in H2. now subst.
-  - injection H as -> ->. apply andb_true_iff. split; [now apply Hx | now apply IH].
-Qed.
-
-Lemma expr_eqb_eq a : forall b, expr_eqb a b = true <-> a = b.
-Proof.
-  induction a as [z|x|l IH|l IH|a1 a2 IH1 IH2|a1 a2 IH1 IH2|f l IH|a IH] using expr_ind'; intros b.
-  - destruct b; cbn; split; intro H; try discriminate. apply Z.eqb_eq in H. now subst.
-    injection H as ->. apply Z.eqb_refl.
-  - destruct b; cbn; split; intro H; try discriminate. apply String.eqb_eq in H. now subst.
-    injection H as ->. apply String.eqb_refl.
-  - destruct b as [| |m| | | | |]; try (cbn; split; intro H; discriminate).
-    rewrite expr_eqb_sum, (list_eqb_eq l IH). split; intro H; [now subst | now injection H].
-  - destruct b as [| | |m| | | |]; try (cbn; split; intro H; discriminate).
-    rewrite expr_eqb_prod, (list_eqb_eq l IH). split; intro H; [now subst | now injection H].
-  - destruct b; cbn; split; intro H; try discriminate.
-    + apply andb_true_iff in H. destruct H as [H1 H2]. apply IH1 in H1. apply IH2 in H2. now subst.
-    + injection H as -> ->. apply andb_true_iff. split; [now apply IH1 | now apply IH2].
-  - destruct b; cbn; split; intro H; try discriminate.
-    + apply andb_true_iff in H. destruct H as [H1 H2]. apply IH1 in H1. apply IH2 in H2. now subst.
-    + injection H as -> ->. apply andb_true_iff. split; [now apply IH1 | now apply IH2].
-  - destruct b as [| | | | | |g m|]; try (cbn; split; intro H; discriminate).
-    rewrite expr_eqb_call, andb_true_iff, String.eqb_eq, (list_eqb_eq l IH).
-    split; intro H; [destruct H; now subst | injection H; auto].
-  - destruct b; cbn; split; intro H; try discriminate.
-    + apply IH in H. now subst.
-    + injection H as ->. now apply IH.
-Qed.
+Lemma list_eqb_refl l : Forall (fun a => expr_eqb a a = true) l -> list_eqb l l = true.
+Proof. induction 1 as [|x l Hx _ IH]; cbn; [reflexivity | now rewrite Hx, IH]. Qed.
 
 Lemma expr_eqb_refl a : expr_eqb a a = true.
-Proof. now apply expr_eqb_eq. Qed.
+Proof.
+  induction a as [z|x|l IH|l IH|a1 a2 IH1 IH2|a1 a2 IH1 IH2|f l IH|f l kw IH IHk|a IH] using expr_ind'.
+  - apply Z.eqb_refl.
+  - apply String.eqb_refl.
+  - rewrite expr_eqb_sum. now apply list_eqb_refl.
+  - rewrite expr_eqb_prod. now apply list_eqb_refl.
+  - cbn. now rewrite IH1, IH2.
+  - cbn. now rewrite IH1, IH2.
+  - rewrite expr_eqb_call, String.eqb_refl. now apply list_eqb_refl.
+  - rewrite expr_eqb_callkw, String.eqb_refl, Nat.eqb_refl, (list_eqb_refl l IH). cbn [andb].
+    assert (Hself : forall kv, In kv kw -> existsb (fun kv2 => kw_match kv kv2) kw = true /\
+                                           existsb (fun kv1 => kw_match kv1 kv) kw = true).
+    { intros kv Hin. rewrite Forall_forall in IHk.
+      split; apply existsb_exists; exists kv; (split; [exact Hin|]);
+        unfold kw_match; now rewrite String.eqb_refl, (IHk kv Hin). }
+    apply andb_true_iff. split; apply forallb_forall; intros kv Hin; now apply Hself.
+  - exact IH.
+Qed.
+
+Section EqbIsConst.
+  Variable free : list string.
+  Notation isc := (isconst free).
+
+  Lemma list_eqb_isconst l :
+    Forall (fun a => forall b, expr_eqb a b = true -> isc a = isc b) l ->
+    forall m, list_eqb l m = true -> forallb isc l = forallb isc m.
+  Proof.
+    induction 1 as [|x l Hx _ IH]; intros [|y m]; cbn; intro H; try discriminate; auto.
+    apply andb_true_iff in H. destruct H as [H1 H2]. now rewrite (Hx y H1), (IH m H2).
+  Qed.
+
+  Lemma kw_eqb_isconst kw kw2 :
+    Forall (fun kv => forall b, expr_eqb (snd kv) b = true -> isc (snd kv) = isc b) kw ->
+    kw_sub kw kw2 = true -> kw_sup kw kw2 = true ->
+    forallb (fun kv => isc (snd kv)) kw = forallb (fun kv => isc (snd kv)) kw2.
+  Proof.
+    intros IH Hsub Hsup. rewrite Forall_forall in IH.
+    unfold kw_sub in Hsub. unfold kw_sup in Hsup. rewrite forallb_forall in Hsub, Hsup.
+    apply eq_true_iff_eq. rewrite !forallb_forall. split; intros H kv Hin.
+    - specialize (Hsup kv Hin). apply existsb_exists in Hsup. destruct Hsup as (kv1 & Hin1 & Hm).
+      unfold kw_match in Hm. apply andb_true_iff in Hm. destruct Hm as [_ Hm].
+      rewrite <- (IH kv1 Hin1 _ Hm). now apply H.
+    - specialize (Hsub kv Hin). apply existsb_exists in Hsub. destruct Hsub as (kv2 & Hin2 & Hm).
+      unfold kw_match in Hm. apply andb_true_iff in Hm. destruct Hm as [_ Hm].
+      rewrite (IH kv Hin _ Hm). now apply H.
+  Qed.
+
+  (* keys that pymbolic considers equal are classified alike *)
+  Lemma expr_eqb_isconst a : forall b, expr_eqb a b = true -> isc a = isc b.
+  Proof.
+    induction a as [z|x|l IH|l IH|a1 a2 IH1 IH2|a1 a2 IH1 IH2|f l IH|f l kw IH IHk|a IH] using expr_ind';
+      intros b H.
+    - destruct b; cbn in H; try discriminate. reflexivity.
+    - destruct b; cbn in H; try discriminate. apply String.eqb_eq in H. now subst.
+    - destruct b as [| |m| | | | | |]; try (cbn in H; discriminate).
+      rewrite expr_eqb_sum in H. cbn [isconst]. now apply list_eqb_isconst.
+    - destruct b as [| | |m| | | | |]; try (cbn in H; discriminate).
+      rewrite expr_eqb_prod in H. cbn [isconst]. now apply list_eqb_isconst.
+    - destruct b; cbn in H; try discriminate. apply andb_true_iff in H. destruct H as [H1 H2].
+      cbn [isconst]. now rewrite (IH1 _ H1), (IH2 _ H2).
+    - destruct b; cbn in H; try discriminate. apply andb_true_iff in H. destruct H as [H1 H2].
+      cbn [isconst]. now rewrite (IH1 _ H1), (IH2 _ H2).
+    - destruct b as [| | | | | |g m| |]; try (cbn in H; discriminate).
+      rewrite expr_eqb_call in H. apply andb_true_iff in H. destruct H as [H1 H2].
+      apply String.eqb_eq in H1. subst g. cbn [isconst]. now rewrite (list_eqb_isconst l IH m H2).
+    - destruct b as [| | | | | | |g m kw2|]; try (cbn in H; discriminate).
+      rewrite expr_eqb_callkw in H. rewrite !andb_true_iff in H.
+      destruct H as [[[[H1 H2] _] H3] H4]. apply String.eqb_eq in H1. subst g. cbn [isconst].
+      now rewrite (list_eqb_isconst l IH m H2), (kw_eqb_isconst kw kw2 IHk H3 H4).
+    - destruct b; cbn in H; try discriminate. cbn [isconst]. now apply IH.
+  Qed.
+End EqbIsConst.
 
 (* ================================================================== *)
 (* Part 1: _ConstantFindingMapper computes isconst for every subexpression
@@ -101,7 +255,7 @@ Section FinderProofs.
   Proof.
     induction 1 as [|[k' v'] d Hkv _ IH]; cbn; [discriminate|].
     destruct (expr_eqb k' k) eqn:E.
-    - intros [= <-]. apply expr_eqb_eq in E. subst. exact Hkv.
+    - intros [= <-]. cbn in Hkv. rewrite Hkv. now apply expr_eqb_isconst.
     - exact IH.
   Qed.
 
@@ -110,7 +264,7 @@ Section FinderProofs.
   Proof.
     induction new as [|[k' v'] new IH]; cbn; intros Hok H; [exact H|].
     inversion Hok as [|? ? Hkv Hok']; subst. destruct (expr_eqb k' k) eqn:E.
-    - apply expr_eqb_eq in E. subst. cbn in Hkv. now f_equal.
+    - cbn in Hkv. rewrite Hkv. f_equal. now apply expr_eqb_isconst.
     - now apply IH.
   Qed.
 
@@ -329,6 +483,61 @@ Section FinderProofs.
     - exact IH'.
   Qed.
 
+  Lemma fgo_kw_list (g : expr -> fstate -> res (bool * fstate)) kw :
+    forall s, fgo_kw g kw s = fgo_list g (map snd kw) s.
+  Proof.
+    induction kw as [|kv kw IH]; intros s; [reflexivity|]. cbn [fgo_kw fgo_list map].
+    destruct (g (snd kv) s) as [[rc s']| | | |]; cbn [bind]; try reflexivity. now rewrite IH.
+  Qed.
+
+  Lemma callkw_char f l kw :
+    Forall IHf l -> Forall (fun kv => IHf (snd kv)) kw -> IHf (ECallKw f l kw).
+  Proof.
+    intros IH IHk stk d Hd. set (e := ECallKw f l kw). apply Forall_snd in IHk.
+    change (fmap true free e (e :: stk, d)) with
+      ('(rf, s1) <- fvar free f (push (EVar f) (e :: stk, d)) ;;
+       '(rs, s2) <- fgo_list frec1 l s1 ;;
+       '(rk, s3) <- fgo_kw frec1 kw s2 ;; combine_post (rf :: rs ++ rk) s3).
+    change (push (EVar f) (e :: stk, d)) with (EVar f :: e :: stk, d).
+    unfold fvar, setd; cbn [fpop fst snd bind].
+    set (rf := negb (mem f free)).
+    assert (Hwf : wfb e = forallb wfb l && forallb wfb (map snd kw))
+      by (unfold e; cbn [wfb]; now rewrite forallb_snd).
+    assert (Hisc : isc e = rf && (forallb isc l && forallb isc (map snd kw)))
+      by (unfold e, rf; cbn [isconst]; now rewrite forallb_snd, andb_assoc).
+    assert (Hsubs : subs e = e :: EVar f :: flat_map subs l ++ flat_map subs (map snd kw))
+      by (unfold e; cbn [subs]; now rewrite flat_map_snd).
+    assert (Hok0 : dict_ok ((EVar f, rf) :: d)) by (now apply dict_ok_cons).
+    generalize (fgo_list_char l IH (e :: stk) ((EVar f, rf) :: d) Hok0). unfold dict.
+    match goal with |- context [fgo_list ?g l ?s] =>
+      destruct (fgo_list g l s) as [[rs [stk2 d2]]| | | |] end;
+      cbn [fchar_list fchar bind]; intros IH'; try contradiction.
+    - destruct IH' as (Hw2 & -> & -> & Hok2 & (new2 & ->) & Hcov2).
+      rewrite fgo_kw_list.
+      generalize (fgo_list_char (map snd kw) IHk (e :: stk) (new2 ++ (EVar f, rf) :: d) Hok2).
+      unfold dict.
+      match goal with |- context [fgo_list ?g (map snd kw) ?s] =>
+        destruct (fgo_list g (map snd kw) s) as [[rk [stk3 d3]]| | | |] end;
+        cbn [fchar_list fchar bind]; intros IHk'; try contradiction.
+      + destruct IHk' as (Hw3 & -> & -> & Hok3 & (new3 & ->) & Hcov3).
+        cbn [combine_post fpop fst snd bind setd fchar].
+        rewrite fold_andb, forallb_app, !forallb_map_id, <- Hisc, Hwf, Hsubs.
+        assert (Hok4 : dict_ok ((e, isc e) :: new3 ++ new2 ++ (EVar f, rf) :: d))
+          by (now apply dict_ok_cons).
+        split; [now rewrite Hw2, Hw3|].
+        split; [reflexivity|].
+        split; [reflexivity|].
+        split; [exact Hok4|].
+        split; [exists ((e, isc e) :: new3 ++ new2 ++ [(EVar f, rf)]); cbn [app];
+                now rewrite <- !app_assoc|].
+        apply (covers_cons_self e (new3 ++ new2 ++ (EVar f, rf) :: d)); [exact Hok4|].
+        constructor.
+        * apply dget_app_ok; [exact Hok3|]. apply dget_app_ok; [exact Hok2|]. apply dget_head.
+        * apply Forall_app; split; [now apply covers_app_ok | exact Hcov3].
+      + rewrite Hwf. now rewrite IHk', andb_false_r.
+    - rewrite Hwf. now rewrite IH'.
+  Qed.
+
   Lemma not_char a : IHf a -> IHf (ENot a).
   Proof.
     intros Ha stk d Hd. set (e := ENot a).
@@ -354,7 +563,7 @@ Section FinderProofs.
 
   Lemma fmap_char e : IHf e.
   Proof.
-    induction e as [z|x|l IH|l IH|a b IHa IHb|a b IHa IHb|f l IH|a IH] using expr_ind'.
+    induction e as [z|x|l IH|l IH|a b IHa IHb|a b IHa IHb|f l IH|f l kw IH IHk|a IH] using expr_ind'.
     - intros stk d Hd. cbn. repeat split; auto.
       + now apply dict_ok_cons.
       + now exists [(EInt z, true)].
@@ -368,6 +577,7 @@ Section FinderProofs.
     - now apply (bin_char (EQuot a b) a b).
     - now apply (bin_char (EPow a b) a b).
     - now apply call_char.
+    - now apply callkw_char.
     - now apply not_char.
   Qed.
 
@@ -449,10 +659,20 @@ Section Ext.
     rewrite IH; [reflexivity|]. intros c'' Hc''. apply H. now right.
   Qed.
 
+  Lemma cgo_kw_ext rec1 rec2 kw :
+    (forall kv, In kv kw -> forall st, rec1 (snd kv) st = rec2 (snd kv) st) ->
+    forall st, cgo_kw rec1 kw st = cgo_kw rec2 kw st.
+  Proof.
+    induction kw as [|kv kw IH]; intros H st; [reflexivity|].
+    cbn [cgo_kw]. rewrite (H kv (or_introl eq_refl)).
+    destruct (rec2 (snd kv) st) as [[c' s1]| | | |]; cbn [bind]; try reflexivity.
+    rewrite IH; [reflexivity|]. intros kv' Hkv'. apply H. now right.
+  Qed.
+
   Lemma cmap_ext e : (forall s, In s (subs e) -> look1 s = look2 s) ->
     forall st, cmap fresh look1 e st = cmap fresh look2 e st.
   Proof.
-    induction e as [z|x|l IH|l IH|a b IHa IHb|a b IHa IHb|f l IH|a IH] using expr_ind';
+    induction e as [z|x|l IH|l IH|a b IHa IHb|a b IHa IHb|f l IH|f l kw IH IHk|a IH] using expr_ind';
       intros H st; try reflexivity.
     - cbn [cmap]. rewrite (cloop_ext _ (crec_gen fresh look2 (cmap fresh look2))); [reflexivity|].
       intros c Hc. rewrite Forall_forall in IH.
@@ -487,6 +707,19 @@ Section Ext.
       assert (Hsub : forall s, In s (subs c) -> look1 s = look2 s).
       { intros s Hs. apply H. right. right. eapply In_subs_child; eauto. }
       apply crec_gen_ext; [apply Hsub, In_subs_self | apply IH; auto].
+    - cbn [cmap]. rewrite (cgo_ext _ (crec_gen fresh look2 (cmap fresh look2))).
+      + destruct (cgo (crec_gen fresh look2 (cmap fresh look2)) l st) as [[l' s1]| | | |]; cbn [bind];
+          try reflexivity.
+        rewrite (cgo_kw_ext _ (crec_gen fresh look2 (cmap fresh look2))); [reflexivity|].
+        intros kv Hkv. rewrite Forall_forall in IHk.
+        assert (Hsub : forall s, In s (subs (snd kv)) -> look1 s = look2 s).
+        { intros s Hs. apply H. right. right. apply in_or_app. right.
+          apply in_flat_map. exists kv. auto. }
+        apply crec_gen_ext; [apply Hsub, In_subs_self | apply IHk; auto].
+      + intros c Hc. rewrite Forall_forall in IH.
+        assert (Hsub : forall s, In s (subs c) -> look1 s = look2 s).
+        { intros s Hs. apply H. right. right. apply in_or_app. left. eapply In_subs_child; eauto. }
+        apply crec_gen_ext; [apply Hsub, In_subs_self | apply IH; auto].
     - cbn [cmap].
       assert (Ha : forall s, In s (subs a) -> look1 s = look2 s) by (intros s Hs; apply H; now right).
       now rewrite (crec_gen_ext a (Ha _ (In_subs_self a)) (IH Ha)).
@@ -528,7 +761,8 @@ Section EvalProofs.
   Variable qop pop : Z -> Z -> Z.
   Variable nop : Z -> Z.
   Variable F : string -> list Z -> Z.
-  Notation ev := (eval qop pop nop F).
+  Variable Fk : string -> list Z -> list (string * Z) -> Z.
+  Notation ev := (eval qop pop nop F Fk).
 
   Definition agree (N : list string) (rho rho' : string -> Z) : Prop :=
     forall x, In x N -> rho' x = rho x.
@@ -545,9 +779,19 @@ Section EvalProofs.
     - apply IH. intros x Hx. apply Ha. cbn. apply in_or_app. now right.
   Qed.
 
+  Lemma map_ev_agree_kw (kw : list (string * expr)) rho rho' :
+    Forall (fun kv => agree (names (snd kv)) rho rho' -> ev rho' (snd kv) = ev rho (snd kv)) kw ->
+    agree (flat_map (fun kv => names (snd kv)) kw) rho rho' ->
+    map (fun kv => (fst kv, ev rho' (snd kv))) kw = map (fun kv => (fst kv, ev rho (snd kv))) kw.
+  Proof.
+    induction 1 as [|kv kw Hc _ IH]; intros Ha; [reflexivity|]. cbn [map]. f_equal.
+    - f_equal. apply Hc. intros x Hx. apply Ha. cbn. apply in_or_app. now left.
+    - apply IH. intros x Hx. apply Ha. cbn. apply in_or_app. now right.
+  Qed.
+
   Lemma eval_agree e : forall rho rho', agree (names e) rho rho' -> ev rho' e = ev rho e.
   Proof.
-    induction e as [z|x|l IH|l IH|a b IHa IHb|a b IHa IHb|f l IH|a IH] using expr_ind';
+    induction e as [z|x|l IH|l IH|a b IHa IHb|a b IHa IHb|f l IH|f l kw IH IHk|a IH] using expr_ind';
       intros rho rho' H; cbn [eval].
     - reflexivity.
     - apply H. now left.
@@ -557,6 +801,11 @@ Section EvalProofs.
     - f_equal; [apply IHa | apply IHb]; intros x Hx; apply H; cbn; apply in_or_app; auto.
     - f_equal. apply map_ev_agree; [eapply Forall_impl; [|exact IH]; auto|].
       intros x Hx. apply H. now right.
+    - cbn [names] in H. f_equal.
+      + apply map_ev_agree; [eapply Forall_impl; [|exact IH]; auto|].
+        intros x Hx. apply H. right. apply in_or_app. now left.
+      + apply map_ev_agree_kw; [eapply Forall_impl; [|exact IHk]; auto|].
+        intros x Hx. apply H. right. apply in_or_app. now right.
     - f_equal. now apply IH.
   Qed.
 (* END-EVAL *)
@@ -570,7 +819,8 @@ Section CollapseSpec.
   Variable qop pop : Z -> Z -> Z.
   Variable nop : Z -> Z.
   Variable F : string -> list Z -> Z.
-  Notation ev := (eval qop pop nop F).
+  Variable Fk : string -> list Z -> list (string * Z) -> Z.
+  Notation ev := (eval qop pop nop F Fk).
   Notation isc := (isconst free).
   Notation nisc := (fun c => negb (isconst free c)).
   Notation len := (@List.length (string * expr)).
@@ -679,6 +929,28 @@ Section CollapseSpec.
       + apply Forall_app; split; [now apply hoisted_l | now apply hoisted_r].
       + intros rho rho' Hag Hbd. apply Forall_app in Hbd. destruct Hbd as [Hb1 Hb2]. cbn [map].
         f_equal; [apply Hv1 | apply Hv2]; eauto using agree_l, agree_r.
+  Qed.
+
+  Lemma cgo_kw_spec kw : Forall (fun kv => Spec (crec0 (snd kv)) (snd kv)) kw ->
+    forall n log, exists kw' new,
+      cgo_kw crec0 kw (n, log) = Ok (kw', (n + len new, log ++ new)) /\
+      fresh_seq n new /\
+      Forall (hoisted_ok (flat_map (fun kv => names (snd kv)) kw)) new /\
+      (forall rho rho', agree (flat_map (fun kv => names (snd kv)) kw) rho rho' ->
+                        Forall (bound rho rho') new ->
+                        map (fun kv => (fst kv, ev rho' (snd kv))) kw' =
+                        map (fun kv => (fst kv, ev rho (snd kv))) kw).
+  Proof.
+    induction 1 as [|kv kw Hc _ IH]; intros n log.
+    - exists [], []. cbn [cgo_kw]. rewrite <- state_nil. repeat split; auto.
+    - destruct (Hc n log) as (c' & new1 & Ec & Hs1 & Hh1 & Hv1).
+      destruct (IH (n + len new1) (log ++ new1)) as (kw' & new2 & El & Hs2 & Hh2 & Hv2).
+      exists ((fst kv, c') :: kw'), (new1 ++ new2). cbn [cgo_kw]. rewrite Ec; cbn [bind].
+      rewrite El; cbn [bind].
+      split; [now rewrite state_app|]. split; [now apply fresh_seq_app|]. cbn [flat_map]. split.
+      + apply Forall_app; split; [now apply hoisted_l | now apply hoisted_r].
+      + intros rho rho' Hag Hbd. apply Forall_app in Hbd. destruct Hbd as [Hb1 Hb2]. cbn [map fst snd].
+        f_equal; [f_equal; apply Hv1 | apply Hv2]; eauto using agree_l, agree_r.
   Qed.
 
   Lemma cloop_spec l : Forall (fun c => Spec (crec0 c) c) l ->
@@ -843,7 +1115,7 @@ Section CollapseSpec.
 
   Lemma cmap_spec e : wfb e = true -> Spec (cmap0 e) e.
   Proof.
-    induction e as [z|x|l IH|l IH|a b IHa IHb|a b IHa IHb|f l IH|a IH] using expr_ind'; intros Hwf.
+    induction e as [z|x|l IH|l IH|a b IHa IHb|a b IHa IHb|f l IH|f l kw IH IHk|a IH] using expr_ind'; intros Hwf.
     - intros n log. exists (EInt z), []. cbn [cmap]. rewrite <- state_nil. repeat split; auto.
     - intros n log. exists (EVar x), []. cbn [cmap]. rewrite <- state_nil. repeat split; auto.
       intros rho rho' Hag _. apply Hag. now left.
@@ -874,6 +1146,21 @@ Section CollapseSpec.
       + eapply hoisted_mono; eauto. apply incl_tl, incl_refl.
       + intros rho rho' Hag Hbd. cbn [eval]. f_equal. apply Hv; auto.
         intros y Hy. apply Hag. now right.
+    - cbn [wfb] in Hwf. apply andb_true_iff in Hwf. destruct Hwf as [Hwl Hwk].
+      assert (HF : Forall (fun c => Spec (crec0 c) c) l).
+      { apply forallb_Forall in Hwl. rewrite Forall_forall in *. intros c Hc. apply crec_spec; auto. }
+      assert (HFk : Forall (fun kv => Spec (crec0 (snd kv)) (snd kv)) kw).
+      { apply forallb_Forall in Hwk. rewrite Forall_forall in *. intros kv Hkv. apply crec_spec; auto. }
+      intros n log. destruct (cgo_spec l HF n log) as (l' & new1 & E1 & Hs1 & Hh1 & Hv1).
+      destruct (cgo_kw_spec kw HFk (n + len new1) (log ++ new1)) as (kw' & new2 & E2 & Hs2 & Hh2 & Hv2).
+      exists (ECallKw f l' kw'), (new1 ++ new2). cbn [cmap]. rewrite E1; cbn [bind]. rewrite E2; cbn [bind].
+      split; [now rewrite state_app|]. split; [now apply fresh_seq_app|]. cbn [names]. split.
+      + apply Forall_app; split; (eapply hoisted_mono; [|eassumption]); apply incl_tl;
+          [apply incl_appl | apply incl_appr]; apply incl_refl.
+      + intros rho rho' Hag Hbd. apply Forall_app in Hbd. destruct Hbd as [Hb1 Hb2]. cbn [eval].
+        assert (Hag' : agree (flat_map names l ++ flat_map (fun kv => names (snd kv)) kw) rho rho')
+          by (intros y Hy; apply Hag; now right).
+        f_equal; [apply Hv1 | apply Hv2]; eauto using agree_l, agree_r.
     - cbn [wfb] in Hwf.
       exact (un_spec ENot nop a (fun _ _ => eq_refl) eq_refl (crec_spec a (IH Hwf))).
   Qed.
@@ -924,7 +1211,7 @@ Qed.
 
 Lemma isconst_names free e : isconst free e = true -> forall v, In v (names e) -> ~ In v free.
 Proof.
-  induction e as [z|x|l IH|l IH|a b IHa IHb|a b IHa IHb|f l IH|a IH] using expr_ind';
+  induction e as [z|x|l IH|l IH|a b IHa IHb|a b IHa IHb|f l IH|f l kw IH IHk|a IH] using expr_ind';
     cbn [isconst names]; intros H v Hv.
   - destruct Hv.
   - destruct Hv as [<-|[]]. intros Hin. apply mem_In in Hin. rewrite Hin in H. discriminate.
@@ -938,6 +1225,14 @@ Proof.
     + intros Hin. apply mem_In in Hin. rewrite Hin in Hf. discriminate.
     + apply in_flat_map in Hv. destruct Hv as (c & Hc & Hvc). rewrite Forall_forall in IH.
       apply (IH c Hc); auto. rewrite forallb_forall in Hl. auto.
+  - apply andb_true_iff in H. destruct H as [H Hk]. apply andb_true_iff in H. destruct H as [Hf Hl].
+    destruct Hv as [<-|Hv].
+    + intros Hin. apply mem_In in Hin. rewrite Hin in Hf. discriminate.
+    + apply in_app_or in Hv. destruct Hv as [Hv|Hv]; apply in_flat_map in Hv.
+      * destruct Hv as (c & Hc & Hvc). rewrite Forall_forall in IH.
+        apply (IH c Hc); auto. rewrite forallb_forall in Hl. auto.
+      * destruct Hv as (kv & Hkv & Hvc). rewrite Forall_forall in IHk.
+        apply (IHk kv Hkv); auto. rewrite forallb_forall in Hk. auto.
   - now apply IH.
 Qed.
 
@@ -945,9 +1240,10 @@ Section Binding.
   Variable qop pop : Z -> Z -> Z.
   Variable nop : Z -> Z.
   Variable F : string -> list Z -> Z.
-  Notation ev := (eval qop pop nop F).
-  Notation ball := (bind_all qop pop nop F).
-  Notation bnd := (bound qop pop nop F).
+  Variable Fk : string -> list Z -> list (string * Z) -> Z.
+  Notation ev := (eval qop pop nop F Fk).
+  Notation ball := (bind_all qop pop nop F Fk).
+  Notation bnd := (bound qop pop nop F Fk).
 
   Lemma bind_all_cons rho x c r : ball rho ((x, c) :: r) = ball (upd rho x (ev rho c)) r.
   Proof. reflexivity. Qed.
@@ -990,7 +1286,7 @@ Section Binding.
 
   Lemma eval_subst asg rho e : ev rho (subst asg e) = ev (ext_env rho asg) e.
   Proof.
-    induction e as [z|x|l IH|l IH|a b IHa IHb|a b IHa IHb|f l IH|a IH] using expr_ind';
+    induction e as [z|x|l IH|l IH|a b IHa IHb|a b IHa IHb|f l IH|f l kw IH IHk|a IH] using expr_ind';
       cbn [subst eval].
     - reflexivity.
     - unfold ext_env. destruct (alookup x asg); reflexivity.
@@ -999,6 +1295,10 @@ Section Binding.
     - now rewrite IHa, IHb.
     - now rewrite IHa, IHb.
     - f_equal. rewrite map_map. apply map_ext_in. now apply Forall_forall.
+    - f_equal.
+      + rewrite map_map. apply map_ext_in. now apply Forall_forall.
+      + rewrite map_map. apply map_ext_in. intros kv Hkv. cbn [fst snd]. f_equal.
+        rewrite Forall_forall in IHk. now apply IHk.
     - now rewrite IH.
   Qed.
 
@@ -1049,7 +1349,7 @@ Section Final.
     destruct (find true free e) as [d| | | |]; cbn [bind]; auto.
     intros [Hw Hcov].
     rewrite (cmap_ext fresh (dget d) (look0 free) e).
-    - destruct (cmap_spec free fresh Z.add Z.add Z.opp (fun _ _ => 0%Z) e Hw 0 [])
+    - destruct (cmap_spec free fresh Z.add Z.add Z.opp (fun _ _ => 0%Z) (fun _ _ _ => 0%Z) e Hw 0 [])
         as (e' & new & E & _).
       rewrite E. cbn [bind app Nat.add]. split; [exact Hw|]. exists new. auto.
     - unfold covers in Hcov. rewrite Forall_forall in Hcov. exact Hcov.
@@ -1061,18 +1361,18 @@ Section Final.
     exists new, asg = dict_of_log new /\ n = List.length new /\
       fresh_seq fresh 0 new /\
       Forall (hoisted_ok free (names e)) new /\
-      forall qop pop nop F rho rho',
-        agree (names e) rho rho' -> Forall (bound qop pop nop F rho rho') new ->
-        eval qop pop nop F rho' e' = eval qop pop nop F rho e.
+      forall qop pop nop F Fk rho rho',
+        agree (names e) rho rho' -> Forall (bound qop pop nop F Fk rho rho') new ->
+        eval qop pop nop F Fk rho' e' = eval qop pop nop F Fk rho e.
   Proof.
     intros H. generalize (collapse_char e). rewrite H. intros (Hw & new & E & ->).
     split; [exact Hw|]. exists new. split; [reflexivity|].
-    destruct (cmap_spec free fresh Z.add Z.add Z.opp (fun _ _ => 0%Z) e Hw 0 [])
+    destruct (cmap_spec free fresh Z.add Z.add Z.opp (fun _ _ => 0%Z) (fun _ _ _ => 0%Z) e Hw 0 [])
       as (e1 & new1 & E1 & Hs & Hh & _).
     rewrite E in E1. cbn [app Nat.add] in E1. injection E1 as <- -> <-.
     split; [reflexivity|]. split; [exact Hs|]. split; [exact Hh|].
-    intros qop pop nop F rho rho' Hag Hbd.
-    destruct (cmap_spec free fresh qop pop nop F e Hw 0 []) as (e2 & new2 & E2 & _ & _ & Hv).
+    intros qop pop nop F Fk rho rho' Hag Hbd.
+    destruct (cmap_spec free fresh qop pop nop F Fk e Hw 0 []) as (e2 & new2 & E2 & _ & _ & Hv).
     rewrite E in E2. cbn [app Nat.add] in E2. injection E2 as <- _ <-. now apply Hv.
   Qed.
 
@@ -1117,11 +1417,11 @@ Section Final.
     collapse true fresh free e = Ok (e', asg, n) ->
     NoDup (map fresh (seq 0 n)) ->
     (forall i, i < n -> ~ In (fresh i) (names e)) ->
-    forall qop pop nop F rho,
-      eval qop pop nop F (bind_all qop pop nop F rho asg) e' = eval qop pop nop F rho e /\
-      eval qop pop nop F rho (subst asg e') = eval qop pop nop F rho e.
+    forall qop pop nop F Fk rho,
+      eval qop pop nop F Fk (bind_all qop pop nop F Fk rho asg) e' = eval qop pop nop F Fk rho e /\
+      eval qop pop nop F Fk rho (subst asg e') = eval qop pop nop F Fk rho e.
   Proof.
-    intros H Hnd Hfr qop pop nop F rho.
+    intros H Hnd Hfr qop pop nop F Fk rho.
     destruct (collapse_inv e e' asg n H) as (_ & new & -> & -> & Hs & Hh & Hv).
     unfold fresh_seq in Hs. rewrite <- Hs in Hnd. rewrite (dict_of_log_nodup new Hnd).
     assert (Hfr' : forall x, In x (map fst new) -> ~ In x (names e)).
@@ -1130,10 +1430,10 @@ Section Final.
     assert (Hinc : Forall (fun xc => incl (names (snd xc)) (names e)) new).
     { eapply Forall_impl; [|exact Hh]. intros xc (_ & _ & H3). exact H3. }
     split.
-    - destruct (bind_all_spec qop pop nop F (names e) new Hnd Hfr' Hinc rho) as [Hag Hbd].
+    - destruct (bind_all_spec qop pop nop F Fk (names e) new Hnd Hfr' Hinc rho) as [Hag Hbd].
       now apply Hv.
     - rewrite eval_subst.
-      destruct (ext_env_spec qop pop nop F (names e) new Hnd Hfr' rho) as [Hag Hbd].
+      destruct (ext_env_spec qop pop nop F Fk (names e) new Hnd Hfr' rho) as [Hag Hbd].
       now apply Hv.
   Qed.
 End Final.
@@ -1184,21 +1484,80 @@ Qed.
 
 Example ex_collapse_value :
   forall rho, exists e' asg n, collapse true fresh_v ["x"] ex_expr = Ok (e', asg, n) /\
-    eval Z.div Z.pow (fun v => if Z.eqb v 0 then 1%Z else 0%Z) (fun _ l => zsum l)
-         (bind_all Z.div Z.pow (fun v => if Z.eqb v 0 then 1%Z else 0%Z) (fun _ l => zsum l) rho asg) e'
-    = eval Z.div Z.pow (fun v => if Z.eqb v 0 then 1%Z else 0%Z) (fun _ l => zsum l) rho ex_expr.
+    eval Z.div Z.pow (fun v => if Z.eqb v 0 then 1%Z else 0%Z) (fun _ l => zsum l) (fun _ l kw => (zsum l + zsum (map snd kw))%Z)
+         (bind_all Z.div Z.pow (fun v => if Z.eqb v 0 then 1%Z else 0%Z) (fun _ l => zsum l) (fun _ l kw => (zsum l + zsum (map snd kw))%Z) rho asg) e'
+    = eval Z.div Z.pow (fun v => if Z.eqb v 0 then 1%Z else 0%Z) (fun _ l => zsum l) (fun _ l kw => (zsum l + zsum (map snd kw))%Z) rho ex_expr.
 Proof.
   intros rho. destruct ex_collapse_hyps as (_ & e' & asg & n & E & Hnd & Hfr).
   exists e', asg, n. split; [exact E|].
   now apply (collapse_value fresh_v ["x"] ex_expr e' asg n E Hnd Hfr).
 Qed.
 
+(* calls with keyword arguments: positional and keyword values are hoisted in order, the keys
+   are kept in place; a constant call with keyword arguments is hoisted as a whole *)
+Definition ex_kw_expr : expr :=
+  ESum [EVar "x";
+        ECallKw "f" [ESum [EVar "a"; EInt 1]; EVar "x"]
+                [("m", EProd [EVar "a"; EVar "b"]);
+                 ("k", EQuot (EVar "x") (ESum [EVar "b"; EInt 2]))];
+        ECallKw "g" [EVar "a"] [("s", ENot (EVar "b"))]].
+
+Definition ex_kw_expr' : expr :=
+  ESum [EVar "v3"; EVar "x";
+        ECallKw "f" [EVar "v0"; EVar "x"] [("m", EVar "v1"); ("k", EQuot (EVar "x") (EVar "v2"))]].
+
+Definition ex_kw_asg : list (string * expr) :=
+  [("v0", ESum [EVar "a"; EInt 1]);
+   ("v1", EProd [EVar "a"; EVar "b"]);
+   ("v2", ESum [EVar "b"; EInt 2]);
+   ("v3", ECallKw "g" [EVar "a"] [("s", ENot (EVar "b"))])].
+
+Example ex_kw_collapse_exact : collapse true fresh_v ["x"] ex_kw_expr = Ok (ex_kw_expr', ex_kw_asg, 4).
+Proof. vm_compute. reflexivity. Qed.
+
+Example ex_kw_collapse_hyps :
+  wfb ex_kw_expr = true /\
+  exists e' asg n, collapse true fresh_v ["x"] ex_kw_expr = Ok (e', asg, n) /\
+    NoDup (map fresh_v (seq 0 n)) /\ (forall i, i < n -> ~ In (fresh_v i) (names ex_kw_expr)).
+Proof.
+  split; [reflexivity|]. vm_compute collapse. do 3 eexists. split; [reflexivity|]. split.
+  - vm_compute. repeat constructor; cbn; intuition discriminate.
+  - intros i Hi. do 4 (destruct i as [|i]; [vm_compute; intuition discriminate|]). lia.
+Qed.
+
+Example ex_kw_collapse_value :
+  forall Fk rho, exists e' asg n, collapse true fresh_v ["x"] ex_kw_expr = Ok (e', asg, n) /\
+    eval Z.div Z.pow Z.opp (fun _ l => zsum l) Fk
+         (bind_all Z.div Z.pow Z.opp (fun _ l => zsum l) Fk rho asg) e'
+    = eval Z.div Z.pow Z.opp (fun _ l => zsum l) Fk rho ex_kw_expr.
+Proof.
+  intros Fk rho. destruct ex_kw_collapse_hyps as (_ & e' & asg & n & E & Hnd & Hfr).
+  exists e', asg, n. split; [exact E|].
+  now apply (collapse_value fresh_v ["x"] ex_kw_expr e' asg n E Hnd Hfr).
+Qed.
+
+(* a free variable that occurs only as a keyword value keeps the call (and every term around it)
+   from being hoisted *)
+Example ex_kw_free_only_in_keyword :
+  collapse true fresh_v ["x"] (ESum [ECallKw "f" [] [("m", EVar "x")]; EVar "a"])
+  = Ok (ESum [EVar "a"; ECallKw "f" [] [("m", EVar "x")]], [], 0).
+Proof. vm_compute. reflexivity. Qed.
+
+(* pymbolic equality of calls with keyword arguments: the keywords form a mapping (order
+   irrelevant), the class matters (CallWithKwargs with no keyword is not a Call) *)
+Example ex_kw_equality :
+  expr_eqb (ECallKw "f" [] [("m", EVar "x"); ("k", EInt 1)]) (ECallKw "f" [] [("k", EInt 1); ("m", EVar "x")]) = true /\
+  expr_same (ECallKw "f" [] [("m", EVar "x"); ("k", EInt 1)]) (ECallKw "f" [] [("k", EInt 1); ("m", EVar "x")]) = false /\
+  expr_eqb (ECallKw "f" [] [("m", EVar "x")]) (ECallKw "f" [] [("m", EVar "a")]) = false /\
+  expr_eqb (ECallKw "f" [] []) (ECall "f" []) = false.
+Proof. vm_compute. auto. Qed.
+
 (* the freshness hypothesis is needed: a supplier returning a name of the expression breaks the value *)
 Example ex_fresh_needed :
   exists fresh e e' asg n,
     collapse true fresh [] e = Ok (e', asg, n) /\
-    eval Z.div Z.pow Z.opp (fun _ _ => 0%Z) (bind_all Z.div Z.pow Z.opp (fun _ _ => 0%Z) (fun _ => 1%Z) asg) e'
-    <> eval Z.div Z.pow Z.opp (fun _ _ => 0%Z) (fun _ => 1%Z) e.
+    eval Z.div Z.pow Z.opp (fun _ _ => 0%Z) (fun _ _ _ => 0%Z) (bind_all Z.div Z.pow Z.opp (fun _ _ => 0%Z) (fun _ _ _ => 0%Z) (fun _ => 1%Z) asg) e'
+    <> eval Z.div Z.pow Z.opp (fun _ _ => 0%Z) (fun _ _ _ => 0%Z) (fun _ => 1%Z) e.
 Proof.
   exists (fun _ => "a"), (EQuot (ESum [EVar "a"; EVar "a"]) (ESum [EVar "a"; EVar "a"; EVar "a"])).
   vm_compute. do 3 eexists. split; [reflexivity|]. discriminate.
@@ -1214,9 +1573,9 @@ Definition full_statement (flag : bool) : Prop :=
       (NoDup (map fresh (seq 0 n)) ->
        (forall i, i < n -> ~ In (fresh i) (names e)) ->
        NoDup (map fst asg) /\ map fst asg = map fresh (seq 0 n) /\
-       forall qop pop nop F rho,
-         eval qop pop nop F rho (subst asg e') = eval qop pop nop F rho e /\
-         eval qop pop nop F (bind_all qop pop nop F rho asg) e' = eval qop pop nop F rho e).
+       forall qop pop nop F Fk rho,
+         eval qop pop nop F Fk rho (subst asg e') = eval qop pop nop F Fk rho e /\
+         eval qop pop nop F Fk (bind_all qop pop nop F Fk rho asg) e' = eval qop pop nop F Fk rho e).
 
 Lemma full_flag flag : flag = true -> full_statement flag.
 Proof.
@@ -1225,8 +1584,8 @@ Proof.
   exists e', asg, n. split; [exact E|]. split.
   - eapply Forall_impl; [|exact (collapse_constant fresh free e e' asg n E)]. intros xc H. apply H.
   - intros Hnd Hfr. destruct (collapse_once fresh free e e' asg n E Hnd) as (H1 & H2 & _).
-    split; [exact H1|]. split; [exact H2|]. intros qop pop nop F rho.
-    destruct (collapse_value fresh free e e' asg n E Hnd Hfr qop pop nop F rho). auto.
+    split; [exact H1|]. split; [exact H2|]. intros qop pop nop F Fk rho.
+    destruct (collapse_value fresh free e e' asg n E Hnd Hfr qop pop nop F Fk rho). auto.
 Qed.
 
 Lemma full_unfixed_refuted : ~ full_statement false.
@@ -1241,9 +1600,9 @@ Lemma collapse_value_flag flag : flag = true ->
     collapse flag fresh free e = Ok (e', asg, n) ->
     NoDup (map fresh (seq 0 n)) ->
     (forall i, i < n -> ~ In (fresh i) (names e)) ->
-    forall qop pop nop F rho,
-      eval qop pop nop F (bind_all qop pop nop F rho asg) e' = eval qop pop nop F rho e /\
-      eval qop pop nop F rho (subst asg e') = eval qop pop nop F rho e.
+    forall qop pop nop F Fk rho,
+      eval qop pop nop F Fk (bind_all qop pop nop F Fk rho asg) e' = eval qop pop nop F Fk rho e /\
+      eval qop pop nop F Fk rho (subst asg e') = eval qop pop nop F Fk rho e.
 Proof. intros ->. exact collapse_value. Qed.
 
 Lemma collapse_constant_flag flag : flag = true ->
